@@ -3822,7 +3822,8 @@ func (e *enterFunc) exec(vm *vm) {
 	ea := 0
 	if e.argsToStash {
 		offset := vm.args - int(e.numArgs)
-		copy(stash.values, vm.stack[sp-vm.args:sp])
+		// only the declared parameters live in the stash: the slots after them belong to other bindings
+		copy(stash.values[:e.numArgs], vm.stack[sp-vm.args:sp])
 		if offset > 0 {
 			vm.stash.extraArgs = make([]Value, offset)
 			copy(stash.extraArgs, vm.stack[sp-offset:])
